@@ -31,4 +31,8 @@ Init ==
 Spec == Init /\ [][NextLoop]_vars /\ WF_vars(NextLoop)
 
 Terminates == <>done
+
+\* the loop refines the cursor abstraction whose termination Apalache proves for ALL sizes (LoopTermination.tla)
+Abs == INSTANCE LoopTermination WITH Guard <- TRUE, idx <- ii, mi <- mi, nrows <- Len(Imu), nmeas <- Len(Mts) - 1, fin <- done
+RefinesAbstraction == Abs!ASpec
 =============================================================================
